@@ -724,10 +724,24 @@ def native_janet():
         rc, _, e, _, _ = sh(["cc", "-O1", "-w", "-std=c99", "-I" + d, os.path.join(REPO, "src/mainclient/shell.c"), lib, "-o", out["janet"], "-lm", "-lpthread", "-ldl", "-lrt"])
         if rc != 0:
             raise BuildError("janet link failed: " + e[-1500:])
-        rc, _, e, _, _ = sh(["cc", "-O1", "-w", "-I" + d, os.path.join(VERIF, "tools/fdump.c"), lib, "-o", out["fdump"], "-lm", "-lpthread", "-ldl", "-lrt"])
-        if rc != 0:
-            raise BuildError("fdump build failed: " + e[-1500:])
+        for tool in ("pegdump", "fdump"):     # fdump last: its presence marks the build complete
+            rc, _, e, _, _ = sh(["cc", "-O1", "-w", "-I" + d, os.path.join(VERIF, "tools/%s.c" % tool), lib, "-o", os.path.join(d, tool), "-lm", "-lpthread", "-ldl", "-lrt"])
+            if rc != 0:
+                raise BuildError("%s build failed: %s" % (tool, e[-1500:]))
     return out
+
+
+def pegdump(janet_src, outpath):
+    """compile PEG grammars with the current tree's peg/compile and write C initialisers"""
+    nj = native_janet()
+    os.makedirs(os.path.dirname(outpath), exist_ok=True)
+    srcp = outpath + ".janet"
+    open(srcp, "w").write(janet_src)
+    rc, o, e, _, _ = sh([os.path.join(nj["dir"], "pegdump"), srcp], timeout=60)
+    if rc != 0:
+        raise BuildError("pegdump failed (rc=%s) on %s: %s" % (rc, srcp, e[-800:]))
+    open(outpath, "w").write(o)
+    return outpath
 
 
 def fdump(janet_src, outpath):
